@@ -646,7 +646,9 @@ def run_check(ctx, prop, gen_mode, oracles, branchers, quick_n, thorough_n, corp
     oracles / branchers: dict mode -> function.  required: histogram keys the generator must reach."""
     test = "TestVerif" + prop
     proofs_ok = ctx.lean_obligations()
+    ctx.log("lean obligations audited (includes waiting for the shared lake lock)")
     binary = ctx.go_test_binary(".", [HARNESS])
+    ctx.log("go harness built")
     if binary is None:
         ctx.violation("correspondence", "harness no longer builds against package centrifuge",
                       signature={"kind": "harness-build"}, replay={"log": getattr(ctx, "build_error", "")},
